@@ -22,7 +22,7 @@ Definition nv_s1 : source :=
     SOpAssign vx BSub (EBin BMul (EInt 5) (EInt 2));
     SPrint (EVar vx) ].
 Example C01_nv_stage1 :
-  ok_block [] None false [] nv_s1 = true /\
+  ok_block [] None [] false [] nv_s1 = true /\
   vm_out nv_s1 200 = (fst (run 200 nv_s1), Done) /\ snd (run 200 nv_s1) = RODone /\
   fst (run 200 nv_s1) = [[118; 61; 55]; [45; 51]]%N.
 Proof. vm_compute. repeat split. Qed.
@@ -33,7 +33,7 @@ Definition nv_s1f : source :=
     SAssert (EBin BLt (EVar vx) (EInt 2)) [115%N; 112%N];
     SPrint (EInt 99) ].
 Example C01_nv_stage1_fail :
-  ok_block [] None false [] nv_s1f = true /\
+  ok_block [] None [] false [] nv_s1f = true /\
   run 200 nv_s1f = ([[51%N]], ROFail (FAssert [115%N; 112%N])) /\
   vm_out nv_s1f 200 = ([[51%N]], RuntimeErr (E_assert [115%N; 112%N]) [LFun (s_module_fn nvp)]).
 Proof. vm_compute. repeat split. Qed.
@@ -52,7 +52,7 @@ Definition nv_s2 : source :=
         SPrint (EVar vacc) ];
     SPrint (EVar vacc) ].
 Example C01_nv_stage2 :
-  ok_block [] None false [] nv_s2 = true /\
+  ok_block [] None [] false [] nv_s2 = true /\
   vm_out nv_s2 2000 = (fst (run 2000 nv_s2), Done) /\ snd (run 2000 nv_s2) = RODone /\
   length (fst (run 2000 nv_s2)) = 8.
 Proof. vm_compute. repeat split. Qed.
@@ -71,7 +71,7 @@ Definition nv_s3 : source :=
         SPrint (EBin BMul (EVar vi) (EVar vx)) ];
     SPrint (EVar vi) ].
 Example C01_nv_stage3 :
-  ok_block [] None false [] nv_s3 = true /\
+  ok_block [] None [] false [] nv_s3 = true /\
   vm_out nv_s3 5000 = (fst (run 5000 nv_s3), Done) /\ snd (run 5000 nv_s3) = RODone /\
   fst (run 5000 nv_s3) = [[49]; [57]; [49; 54]; [103; 116]; [50; 53]; [54]]%N.
 Proof. vm_compute. repeat split. Qed.
@@ -91,7 +91,7 @@ Definition nv_s4 : source :=
         SPrint (EBin BAdd (EBin BAdd (EVar vi) (EStr [58%N])) (EVar vacc)) ];
     SPrint (EVar vacc) ].
 Example C01_nv_stage3_from :
-  ok_block [] None false [] nv_s4 = true /\
+  ok_block [] None [] false [] nv_s4 = true /\
   vm_out nv_s4 5000 = (fst (run 5000 nv_s4), Done) /\ snd (run 5000 nv_s4) = RODone /\
   length (fst (run 5000 nv_s4)) = 4.
 Proof. vm_compute. repeat split. Qed.
@@ -132,7 +132,7 @@ Definition nv_main : list stmt :=
         SPrint (EVar vt) ] ].
 Definition nv_s5 : source := fmodule nv_ft nv_main.
 Example C01_nv_stage4b :
-  ok_block nv_ft None false [] nv_main = true /\
+  ok_block nv_ft None [] false [] nv_main = true /\
   vm_out nv_s5 5000 = (fst (run 5000 nv_s5), Done) /\ snd (run 5000 nv_s5) = RODone /\
   fst (run 5000 nv_s5) = [[51]; [54; 48; 48]; [52]; [60]; [57]; [54; 48; 48]]%N.
 Proof. vm_compute. repeat split. Qed.
@@ -195,7 +195,7 @@ Definition nv_main2 : list stmt :=
     SIf (EBin BGt (EVar vx) (EInt 0)) [ SPrint (ECall (EVar vf) [EInt 5]) ] ].
 Definition nv_s6 : source := fmodule nv_ft2 nv_main2.
 Example C01_nv_stage4c :
-  ok_block nv_ft2 None false [] nv_main2 = true /\
+  ok_block nv_ft2 None [] false [] nv_main2 = true /\
   vm_out nv_s6 5000 = (fst (run 5000 nv_s6), Done) /\ snd (run 5000 nv_s6) = RODone /\
   fst (run 5000 nv_s6) = [[49; 48; 49]; [49; 48; 50]; [52]; [49; 52]; [50; 48; 49]]%N.
 Proof. vm_compute. repeat split. Qed.
@@ -236,7 +236,7 @@ Definition nv_s7 : source :=
     SPrint (EVar vacc);
     SPrint (EVar vi) ].
 Example C01_nv_stage5a :
-  ok_block [] None false [] nv_s7 = true /\
+  ok_block [] None [] false [] nv_s7 = true /\
   vm_out nv_s7 5000 = (fst (run 5000 nv_s7), Done) /\ snd (run 5000 nv_s7) = RODone /\
   length (fst (run 5000 nv_s7)) = 14.
 Proof. vm_compute. repeat split. Qed.
@@ -287,4 +287,28 @@ Example C01_nv_stage5b :
 Proof.
   split; [|vm_compute; repeat split].
   cbn [classify nv_s9 mod_ok app]. fn_ok_tac; try (vm_compute; intuition discriminate); cbn [fn_ok]; fn_ok_tac.
+Qed.
+
+(* ---------------------------------------------------------------- stage 5c: functions that capture DATA variables of the module
+   (by reference: the module reassigns n between the calls), directly and through a captured function; a local of the
+   same name as a captured variable shadows it *)
+Definition nv_s10 : source :=
+  [ SAssign vn (EInt 3); SAssign vk (EInt 10);
+    SAssign vf (EFn [vx] [SReturn (Some (EBin BAdd (EVar vx) (EVar vn)))]);
+    SAssign vg (EFn [vx] [ SIf (EBin BGt (EVar vk) (EInt 5)) [ SPrint (EVar vk) ];
+                           SAssign vt (EBin BMul (ECall (EVar vf) [EVar vx]) (EVar vk));
+                           SAssign vk (EInt 1);
+                           SReturn (Some (EBin BAdd (EVar vt) (EVar vk))) ]);
+    SPrint (ECall (EVar vg) [EInt 2]);
+    SAssign vn (EInt 4);
+    SFrom (EInt 0) (EInt 2) false None None false [ SOpAssign vn BAdd (EInt 1); SPrint (ECall (EVar vf) [EVar vk]) ];
+    SPrint (ECall (EVar vg) [ECall (EVar vf) [EInt 0]]);
+    SPrint (EVar vk) ].
+Example C01_nv_stage5c :
+  mod_ok [] [] (classify nv_s10) /\
+  vm_out nv_s10 5000 = (fst (run 5000 nv_s10), Done) /\ snd (run 5000 nv_s10) = RODone /\
+  fst (run 5000 nv_s10) = [[49; 48]; [53; 49]; [49; 53]; [49; 54]; [49; 48]; [49; 50; 49]; [49; 48]]%N.
+Proof.
+  split; [|vm_compute; repeat split].
+  cbn [classify nv_s10 mod_ok app]. fn_ok_tac; try (vm_compute; intuition discriminate); cbn [fn_ok]; fn_ok_tac.
 Qed.
